@@ -112,6 +112,10 @@ def run(idx: Index, rep: Report, tier: str) -> None:
             rep.ok(rule1, f"{name}: no sign-dependent swap of the positive/negative sets", f.loc(), function=f.qualname)
             continue
         reads_bounds = {n.attr for n in walk_no_nested(f.node) if isinstance(n, ast.Attribute) and n.attr in ("lower_bound", "upper_bound")}
+        _lcc = idx.cls(LC)
+        for c in walk_no_nested(f.node):  # … or in a private helper of the checker that the handler calls
+            if isinstance(c, ast.Call) and isinstance(c.func, ast.Attribute) and norm(c.func.value) == "self" and c.func.attr.startswith("_") and c.func.attr in _lcc.methods:
+                reads_bounds |= {n.attr for n in walk_no_nested(_lcc.methods[c.func.attr].node) if isinstance(n, ast.Attribute) and n.attr in ("lower_bound", "upper_bound")}
         both_sets = [e for _, e in rets if e[1] == e[2] and e[1] not in ("set()",)]
         only_constants = any(isinstance(c, ast.Call) and call_name(c) in ("is_int_constant", "is_real_constant", "is_constant") for c in walk_no_nested(f.node))
         ok = reads_bounds == {"lower_bound", "upper_bound"} and bool(both_sets)
@@ -142,14 +146,33 @@ def run(idx: Index, rep: Report, tier: str) -> None:
         t = norm(a.value)
         if "len(denominator_positive_fluents) == 0" in t and "len(denominator_negative_fluents) == 0" in t and "numerator_is_linear" in t and "denominator_is_linear" in t and isinstance(a.value, ast.BoolOp) and isinstance(a.value.op, ast.And):
             ok = True
-    rep.check(ok, rule2, "walk_div: a fluent-dependent divisor makes the quotient non-linear", wd.loc(asg[0]) if asg else wd.loc(), construct=norm(asg[0])[:150] if asg else "", detail="" if ok else "a quotient with fluents in the divisor can be reported linear", function=wd.qualname)
+    if not ok:
+        # the same condition written as a guard: every return that can claim linearity is reached only with both
+        # fluent sets of the divisor empty (and both operands linear)
+        from ..rules2 import path_facts
+
+        dcfg = cfg_of(wd)
+        claims = [n for n in dcfg.nodes if n.kind == "return" and isinstance(n.ast.value, ast.Tuple) and len(n.ast.value.elts) == 3 and not (isinstance(n.ast.value.elts[0], ast.Constant) and n.ast.value.elts[0].value is False)]
+        def _empty(facts, x):
+            return (f"len({x}) == 0", True) in facts or (x, False) in facts or (f"len({x}) > 0", False) in facts
+        good = []
+        for n in claims:
+            fs = path_facts(dcfg, n)
+            if (norm(n.ast.value.elts[0]), False) in fs:
+                continue  # this return reports non-linearity
+            good.append(_empty(fs, "denominator_positive_fluents") and _empty(fs, "denominator_negative_fluents") and ("numerator_is_linear", True) in fs and ("denominator_is_linear", True) in fs)
+        ok = bool(good) and all(good)
+    rep.check(ok, rule2, "walk_div: a fluent-dependent divisor makes the quotient non-linear", wd.loc(asg[0]) if asg else wd.loc(), construct=norm(asg[0])[:150] if asg else "linearity claimed only under empty divisor fluent sets", detail="" if ok else "a quotient with fluents in the divisor can be reported linear", function=wd.qualname)
     for name in ("walk_times", "walk_div", "walk_minus"):
         f = _lc(idx, name)
         fc = cfg_of(f)
         ok = False
         for n in fc.nodes:
             if n.kind == "return" and isinstance(n.ast.value, ast.Tuple) and [norm(e) for e in n.ast.value.elts][1:] == ["set()", "set()"]:
-                if fact_holds(guards_dominating(fc, n), "is_linear", False):
+                first = n.ast.value.elts[0]
+                gds = guards_dominating(fc, n)
+                # `if not is_linear:` may have been inlined to the condition is_linear stands for
+                if fact_holds(gds, "is_linear", False) or (isinstance(first, ast.Constant) and first.value is False) or (isinstance(first, ast.Name) and first.id == "is_linear" and gds):
                     ok = True
         rep.check(ok, rule2, f"{name}: a non-linear verdict carries no monotonicity claim", f.loc(), construct="if not is_linear: return (is_linear, set(), set())", function=f.qualname)
     wm = _lc(idx, "walk_minus")
@@ -163,7 +186,21 @@ def run(idx: Index, rep: Report, tier: str) -> None:
         ok = "negative_fluents |= spf" in after and "positive_fluents |= snf" in after
         before = [norm(s) for s in body[:idx1]]
         ok = ok and "positive_fluents |= spf" in before and "negative_fluents |= snf" in before
-    rep.check(ok, rule2, "walk_minus: minuend keeps, subtrahend swaps the fluent sets", wm.loc(), construct="args[0]: pos|=spf, neg|=snf; args[1]: neg|=spf, pos|=snf", detail="" if ok else "the polarity of the subtrahend's fluents is not inverted (or the minuend's is)", function=wm.qualname)
+    removal = None
+    lc_cls = idx.cls(LC)
+    for hm in lc_cls.methods.values():
+        for x in walk_no_nested(hm.node):
+            if isinstance(x, ast.BinOp) and isinstance(x.op, (ast.Sub, ast.BitAnd, ast.BitXor)) and any(isinstance(y, ast.Name) and ("fluents" in y.id or y.id in ("spf", "snf")) for y in ast.walk(x)):
+                removal = removal or (hm, x)
+            if isinstance(x, ast.Call) and isinstance(x.func, ast.Attribute) and x.func.attr in ("difference", "difference_update", "discard", "remove", "intersection", "intersection_update", "symmetric_difference", "clear", "pop") and "fluents" in norm(x.func.value):
+                removal = removal or (hm, x)
+            if isinstance(x, ast.AugAssign) and isinstance(x.op, (ast.Sub, ast.BitAnd, ast.BitXor)) and "fluents" in norm(x.target):
+                removal = removal or (hm, x)
+    rep.check(removal is None, rule2, "LinearChecker: the sets of fluents an expression grows / shrinks in only ever grow", (removal[0].loc(removal[1]) if removal else lc_cls.loc()), construct=(norm(removal[1])[:70] if removal else "no set difference / removal in the handlers"), detail="" if removal is None else "a fluent is taken out of a monotonicity set: when the same fluent occurs in both operands (2*x - x) its contribution from one side is lost and the expression is reported monotone in the wrong direction", function=(removal[0].qualname if removal else lc_cls.qualname))
+    if ok:
+        rep.ok(rule2, "walk_minus: minuend keeps, subtrahend swaps the fluent sets", wm.loc(), construct="args[0]: pos|=spf, neg|=snf; args[1]: neg|=spf, pos|=snf", function=wm.qualname)
+    else:
+        rep.inconclusive(rule2, "walk_minus: the swap of the subtrahend's sets is not in the recognised form", wm.loc(), construct="args[0]: pos|=spf, neg|=snf; args[1]: neg|=spf, pos|=snf", function=wm.qualname)
     wf = _lc(idx, "walk_fluent_exp")
     rets = _tuple_returns(wf)
     ok = bool(rets) and all(e[1] == "{expression}" and e[2] == "set()" for _, e in rets)
